@@ -1100,3 +1100,50 @@ def datagram_decoder_none_leaves_nothing(prog):
                              f"the decoder answers Ok(None) for a datagram while its buffer may still hold bytes (length {ln}): UdpFramed calls decode_eof, whose default turns "
                              "`None` with bytes remaining into an error of the stream - one dropped datagram (e.g. a replayed or stale packet id) ends the task that reads the socket"))
     return rows, n
+
+
+def _moved_into_spawn(b, local):
+    """the value (followed through plain moves / copies) is an argument of tokio::spawn"""
+    carriers = {local}
+    changed = True
+    while changed:
+        changed = False
+        for blk in b.rpo():
+            for s_ in b.stmts(blk):
+                if s_["k"] == "assign" and s_["rv"]["k"] == "use" and not s_["p"][1]:
+                    p = op_place(s_["rv"]["op"])
+                    if p and not p[1] and p[0] in carriers and s_["p"][0] not in carriers:
+                        carriers.add(s_["p"][0])
+                        changed = True
+    for (blk, c, t) in b.calls():
+        if c.target.endswith("task::spawn::spawn") or c.target.endswith("task::spawn::spawn_local") or c.name.endswith("JoinSet::spawn"):
+            if any(op_place(a) and not op_place(a)[1] and op_place(a)[0] in carriers for a in t["args"]):
+                return True
+    return False
+
+
+def inline_family(prog, root):
+    """the bodies of a function's family that run in the activation that calls it (and awaits it): the function, its own coroutine body, and
+    nested closures / async blocks - except those whose value is handed to tokio::spawn (they run in a task of their own), and what is nested
+    in those. Used where a rule asks what a call *makes its caller wait for*."""
+    fam = prog.family(root)
+    spawned = set()
+    for fb in fam:
+        for blk in fb.rpo():
+            for s_ in fb.stmts(blk):
+                if s_["k"] == "assign" and s_["rv"]["k"] == "agg" and s_["rv"].get("ak") in ("closure", "coroutine") and s_["rv"].get("def"):
+                    if not s_["p"][1] and _moved_into_spawn(fb, s_["p"][0]):
+                        spawned.add(s_["rv"]["def"])
+    changed = True
+    while changed:
+        changed = False
+        for fb in fam:
+            if fb.defp not in spawned and getattr(fb, "parent", None) in spawned:
+                spawned.add(fb.defp)
+                changed = True
+    return [fb for fb in fam if fb.defp not in spawned]
+
+
+def inline_calls(prog, fb):
+    """the calls of a body whose result is not handed to tokio::spawn (a future built by `f(x)` and spawned is not awaited here)"""
+    return [(blk, c, t) for (blk, c, t) in fb.calls() if not _moved_into_spawn(fb, t["dest"][0])]
